@@ -463,3 +463,38 @@ Definition cfg_subsets (c : cfg) : list cfg :=
 
 (** the open (not repaired) defects of the tree the checks run against *)
 Definition cfg_current : cfg := cfg_fixed.
+
+(** * the full ledger (state ledger + chain ledger behind [ledger.Ledger])
+
+    The chain half is observed as a list of numbers: head height, persisted head height, number of
+    blocks in the blockfile, head hash, persisted head hash, then the block hash per height 1..16
+    (0 = no such block; hashes interned per history).  Claim evaluated on implementation traces
+    (the state half of the same trace is judged by [judge_group] as usual): a refused rollback and a
+    failed commit leave the chain half untouched; an accepted Rollback(t) leaves memory, store and
+    blockfile at height t with the blocks up to t as they were and none above; an accepted Commit(h)
+    leaves them at height h with the blocks below h as they were; every other operation (state reads
+    and writes, flush, reopen) does not move the chain half.  Result: first offending step. *)
+Definition chain_heights_at (c : list N) (h : N) : bool :=
+  match c with a :: b :: n :: _ => (a =? h) && (b =? h) && (n =? h) | _ => false end.
+Fixpoint chain_cut_ok (h j : N) (above : bool) (c p : list N) : bool :=
+  match c, p with
+  | x :: c', y :: p' =>
+      (if j <=? h then x =? y else if above then x =? 0 else true) && chain_cut_ok h (j + 1) above c' p'
+  | [], [] => true
+  | _, _ => false
+  end.
+Fixpoint full_frame_g (ops : list op) (outs : list out) (chs : list (list N)) (prev : list N) (i : N) : option N :=
+  match ops, outs, chs with
+  | o :: t, x :: t', c :: t'' =>
+      let same := list_eqb N.eqb c prev in
+      let ok := match o, x with
+                | Rollback h, ORes r =>
+                    if r =? R_ok then chain_heights_at c h && chain_cut_ok h 1 true (skipn 5 c) (skipn 5 prev) else same
+                | Commit h, ORes r =>
+                    if r =? R_ok then chain_heights_at c h && chain_cut_ok (h - 1) 1 false (skipn 5 c) (skipn 5 prev) else same
+                | _, _ => same
+                end in
+      if ok then full_frame_g t t' t'' c (i + 1) else Some i
+  | _, _, _ => None
+  end.
+
